@@ -4,6 +4,8 @@ import Driver.Layers
 import Driver.CApi
 import Driver.Keys
 import Driver.Cli
+import Driver.Format
+import Driver.Stack
 open Lean Driver MlaModel
 
 
@@ -29,6 +31,16 @@ def dispatch (j : Json) : Json :=
   | "cli.path" => cmdCliPath j
   | "cli.extract" => cmdCliExtract j
   | "cli.expect" => cmdCliExpect j
+  | "gcm.split" => cmdGcmSplit j
+  | "header.decode" => cmdHeaderDecode j
+  | "header.encode" => cmdHeaderEncode j
+  | "archive.build" => cmdArchiveBuild j
+  | "archive.decode" => cmdArchiveDecode j
+  | "archive.finish" => cmdArchiveFinish j
+  | "format.consts" => cmdFormatConsts j
+  | "stack.run" => cmdStackRun j
+  | "stack.unwrap" => cmdStackUnwrap j
+  | "stack.header" => cmdStackHeader j
   | c => Json.mkObj [("err", Json.str ("unknown-cmd:" ++ c))]
 
 partial def loop (h : IO.FS.Stream) (out : IO.FS.Stream) : IO Unit := do
